@@ -121,10 +121,12 @@ def metadata_from_conf(confdict, kind):
     return str(entity_descriptor(c))
 
 
-def make_sp(confdict):
-    from saml2_tophat.config import SPConfig
+def make_sp(confdict, config_class='sp'):
+    """config_class: 'sp' = SPConfig (usual), 'generic' = the role-neutral Config (what a combined proxy entity is loaded with)"""
+    from saml2_tophat.config import SPConfig, Config
     from saml2_tophat.client import Saml2Client
-    return Saml2Client(config=SPConfig().load(copy.deepcopy(confdict)))
+    cls = {'sp': SPConfig, 'generic': Config}[config_class]
+    return Saml2Client(config=cls().load(copy.deepcopy(confdict)))
 
 
 def make_idp(confdict):
